@@ -180,7 +180,38 @@ func (f FoldObj) Fold(v structform.ExtVisitor) error {
 	return v.OnObjectFinished()
 }
 
+// RegT and RegObj have folders REGISTERED through gotype.Folders (not methods).
+type RegT struct{ A int }
+type RegObj struct{ A int }
+
+func foldRegT(in *RegT, v structform.ExtVisitor) error {
+	if in == nil {
+		return v.OnNil()
+	}
+	return v.OnString(fmt.Sprintf("R%d", in.A))
+}
+
+func foldRegObj(in *RegObj, v structform.ExtVisitor) error {
+	if in == nil {
+		return v.OnNil()
+	}
+	if err := v.OnObjectStart(1, structform.AnyType); err != nil {
+		return err
+	}
+	if err := v.OnKey("ra"); err != nil {
+		return err
+	}
+	if err := v.OnInt(in.A); err != nil {
+		return err
+	}
+	return v.OnObjectFinished()
+}
+
+// userFolders is passed to every iterator the harness creates.
+var userFolders = gotype.Folders(foldRegT, foldRegObj)
+
 var namedTypes = map[string]reflect.Type{
+	"RegT": reflect.TypeOf(RegT{}), "RegObj": reflect.TypeOf(RegObj{}),
 	"RecNode": reflect.TypeOf(RecNode{}), "RecTree": reflect.TypeOf(RecTree{}),
 	"MyInt": reflect.TypeOf(MyInt(0)), "MyStr": reflect.TypeOf(MyStr("")),
 	"MySlice": reflect.TypeOf(MySlice(nil)), "MyMap": reflect.TypeOf(MyMap(nil)),
@@ -198,6 +229,8 @@ var namedUnder = map[string]TD{
 	"ZeroP":   {K: "struct", F: []FD{{Name: "A", T: TD{K: "int"}}}},
 	"FoldT":   {K: "struct", F: []FD{{Name: "A", T: TD{K: "int"}}}},
 	"FoldObj": {K: "struct", F: []FD{{Name: "A", T: TD{K: "int"}}}},
+	"RegT":    {K: "struct", F: []FD{{Name: "A", T: TD{K: "int"}}}},
+	"RegObj":  {K: "struct", F: []FD{{Name: "A", T: TD{K: "int"}}}},
 }
 
 func tagString(f *FD) string {
